@@ -16,7 +16,15 @@ import (
 	"time"
 )
 
-const Root = "/verif"
+// Root is the verification directory (VERIF_ROOT lets a snapshot of /verif run on its own files).
+var Root = rootDir()
+
+func rootDir() string {
+	if r := os.Getenv("VERIF_ROOT"); r != "" {
+		return r
+	}
+	return "/verif"
+}
 
 type Coverage map[string]any
 
